@@ -153,6 +153,23 @@ CHECKS["C10"] = dict(
     technique="TLA+ spec (PoolProps/PoolDesign) model-checked with TLC incl. liveness; TLC completion orders forced on "
               "FileSet.map/imap via a gated executor; recorded event logs validated by TLC (PoolTrace)")
 
+CHECKS["C11"] = dict(
+    text="FileOpsProps.tla is a state machine over the abstract directory contents of two filesets (key = identity as far "
+         "as the layout spells it out, content id) with actions Write, Move/Copy (selection by period, tag filter, explicit "
+         "list; colliding targets take the content of one of the colliding sources) and Delete (dry or not); TLC checks key "
+         "uniqueness, projection and NoInvention and simulates histories, recording the state after every step; each history "
+         "is replayed on two real filesets in 8 layout/handler configurations (pickle, NetCDF with dtypes/NaN/datetimes/"
+         "scale-offset/pseudo group, CSV with read_args, added compression suffix with convert, __setitem__ and write) and "
+         "after EVERY step all files on disk are listed, parsed back through the template and read through the handler.",
+    ref="DESIGN.md §5 C11",
+    note="Trusted: TLC, FileOpsProps (~110 lines), the content catalogue and its equality (values, NaN-aware; dtype "
+         "widening by the NetCDF reader is not judged). Handlers run in one worker thread (netCDF4/HDF5 is not thread-safe). "
+         "Outside the statement and not exercised: a template STRING as move target together with convert (move then works on "
+         "a copy of the source fileset and keeps its handler), renaming .zip files without conversion (decompress looks for a "
+         "member named after the new file), uint8 value 255 (netCDF default fill).",
+    technique="TLA+ spec (FileOpsProps) model-checked and simulated with TLC; TLC histories replayed step by step into "
+              "FileSet write/move/delete with the directory contents compared after every step")
+
 NOT_APPLICABLE = {
     "C07": "Every clause concerns floating-point accuracy of sin/cos/arctan2/sqrt compositions or convergence of a "
            "fixed-point iteration over a continuous domain; TLA+/TLC has no reals or transcendental functions and there "
